@@ -157,6 +157,9 @@ def features(pid, tier, seed, wd, bins, out):
         rc, o = sh([RUNNER, "--ops", ops, "--obs", mod, "--dbg", "1"], timeout=900)
         if rc != 0: raise ToolError("runner failed: " + o[-500:])
         bat[prof] = (ops, obs, mod)
+    mis_ops, mis_obs = os.path.join(wd, "bat.misuse.ops"), os.path.join(wd, "bat.misuse.obs")
+    rc, o = sh([bins["debug"], "gen", "--seed", str(seed + 9), "--hists", str(hists), "--len", "40", "--profile", "misuse", "--ops", mis_ops, "--obs", mis_obs], timeout=300)
+    have_misuse = (rc == 0)
     import concurrent.futures
     def one(fs):
         tag = "f_" + (fs.replace(",", "_") or "nostd")
@@ -164,14 +167,25 @@ def features(pid, tier, seed, wd, bins, out):
         res = []
         for prof, (ops, obs, mod) in bat.items():
             o2 = os.path.join(wd, "bat.%s.%s.obs" % (prof, tag))
-            rc, o = sh([hb, "run", "--ops", ops, "--obs", o2], timeout=900)
-            if rc == 124: res.append((fs, prof, "did not finish")); continue
+            rc, o = sh([hb, "run", "--ops", ops, "--obs", o2], timeout=120)
+            if rc == 124 or rc < 0:
+                done = len(open(o2).read().splitlines()) if os.path.exists(o2) else 0
+                cmds = [l for l in open(ops).read().splitlines() if l.strip() and not l.startswith("#")]
+                res.append((fs, prof, "a call did not return under this feature set: command #%d [%s] (the same call returns under the default features)" % (done, cmds[done] if done < len(cmds) else "?"))); continue
             if rc != 0: raise ToolError("run failed under features %r: %s" % (fs, o[-500:]))
             a, b = open(o2).read().splitlines(), open(mod).read().splitlines()
             for i, (x, y) in enumerate(zip(a, b)):
                 if x != y and not x.startswith("s "):
                     res.append((fs, prof, "line %d: features[%s] gives [%s], model/default gives [%s]" % (i, fs, x[:200], y[:200]))); break
             res.append((fs, prof, None, len(a)))
+        if have_misuse:
+            o3 = os.path.join(wd, "bat.misuse.%s.obs" % tag)
+            rc, o = sh([hb, "run", "--ops", mis_ops, "--obs", o3], timeout=60)
+            if os.path.exists(o3):          # compare whatever was produced, even if a later call hung
+                a, b = open(o3).read().splitlines(), open(mis_obs).read().splitlines()
+                for i, (x, y) in enumerate(zip(a, b)):
+                    if x != y and not x.startswith("s ") and not y.startswith("s "):
+                        res.append((fs, "misuse", "line %d: features[%s] gives [%s], the full-featured build gives [%s] (battery with stale / removed ids)" % (i, fs, x[:200], y[:200]))); break
         # par_iter == iter and thread checks under this feature set
         f = os.path.join(wd, "self." + tag)
         rc, o = sh([hb, "selfcheck", "--seed", str(seed), "--hists", "30", "--len", "30", "--out", f], timeout=900)
@@ -184,7 +198,7 @@ def features(pid, tier, seed, wd, bins, out):
             for r in res:
                 if len(r) == 4: out["evaluations"] += r[3]
                 elif r[2]:
-                    out["violations"].append(_viol(["core behaviour differs under feature set [%s] (profile %s): %s" % r], open(bat.get(r[1], bat["core"])[0]).read().splitlines()[:400]))
+                    out["violations"].append(_viol(["core behaviour differs under feature set [%s] (profile %s): %s" % r], open(mis_ops if r[1] == "misuse" else bat.get(r[1], bat["core"])[0]).read().splitlines()[:400]))
     out["distinct"] += len(sets)
     out["summary"]["feature_sets"] = sets
     out["rule"] += " features: the same battery (profiles core/iters/print) executed under feature sets %s; each compared line by line with the model." % sets
